@@ -1022,7 +1022,14 @@ func ruleST1(c *Ctx) *rule {
 	if n == 0 {
 		r.bad("module json-print", "-", "nothing prints the JSON report to standard output")
 	}
-	// the logger: a zap sink on "stdout" puts the debug lines into the document
+	// the logger: a zap sink on "stdout" puts the debug lines into the document; zap.NewExample logs to standard output
+	for _, f := range c.ModFuncs {
+		for _, site := range callSites(f) {
+			if calleeName(site.Common()) == "go.uber.org/zap.NewExample" {
+				r.bad(fname(f)+" zap.NewExample", c.ipos(site), "the logger is built with zap.NewExample, which writes to standard output: with --json --debug the output is log lines followed by the report, not one JSON document")
+			}
+		}
+	}
 	for _, key := range []string{"go.uber.org/zap.Config.OutputPaths", "go.uber.org/zap.Config.ErrorOutputPaths"} {
 		for _, st := range c.fieldStores()[key] {
 			if !inModule(st.Parent()) {
